@@ -338,7 +338,7 @@ def fn_programs() -> list:
     add("fn_tuple_bound_local_shadows_global",
         {"span": DEF(["a", "b"], [TUPLE(["lo", "hi"], [V("a"), V("b")]), IF([(CMP(V("lo"), (">", V("hi"))), [TUPLE(["lo", "hi"], [V("hi"), V("lo")])])]), RETURN(BIN("-", V("hi"), V("lo")))])},
         [ASSIGN("lo", I(10)), ASSIGN("hi", I(20)), WRITE(CALL("span", I(7), I(2))), WRITE(V("lo")), WRITE(V("hi"))],
-        loop=[WRITE(CALL("span", I(1), I(4))), WRITE(BIN("+", V("lo"), V("hi")))], npass=2)
+        loop=[WRITE(CALL("span", I(1), I(4))), WRITE(BIN("+", V("lo"), V("hi")))], npass=2, lead=2)      # the globals stand BEFORE the helper
     add("fn_for_branch_hoist", {"f": DEF(["n"], [FOR("i", V("n"), [IF([(CMP(V("i"), ("==", I(0))), [ASSIGN("w", I(9))])]), WRITE(V("w"))]), RETURN(V("w"))])},
         [WRITE(CALL("f", I(3)))])
     # a helper re-binds its own parameters: the caller's variables keep their values
